@@ -99,6 +99,29 @@ func c01Scenarios(tier string) []*Scenario {
 				out = append(out, sc)
 			}
 		}
+		// senders that keep ONE message object: overwritten in place before each send, scribbled over as soon as
+		// the send / the unary call has returned (run.go, option "reuse") -- the receiver still obtains what was sent
+		for _, rpc := range []RPC{
+			{Kind: "ss", Client: []string{"S0", "C", "R*"}, Handler: []string{"r", "s0", "s1", "s2", "ret:ok"}},
+			{Kind: "bd", Client: []string{"S0", "S1", "S2", "C", "R*"}, Handler: []string{"r*", "s0", "s1", "ret:ok"}},
+		} {
+			if tr == "http" && tier != "thorough" && rpc.Kind == "bd" {
+				continue
+			}
+			out = append(out, &Scenario{Prop: "C01", Name: "reuse|" + rpcName(rpc), Transport: tr, RPCs: []RPC{rpc}, Bound: -1, Opts: "reuse", Cloner: "yield"})
+		}
+		// ... also across calls: a unary call its caller gave up on (own deadline), possibly before the server side
+		// got to decode the request, followed by the next call made with the same request object
+		if tr == "inproc" || tier == "thorough" {
+			for _, h0 := range [][]string{{"dec", "ret:ok"}, {"w", "dec", "ret:ok"}} {
+				sc := &Scenario{Prop: "C01", Transport: tr, Bound: -1, Opts: "seq0,timers,reuse", Cloner: "yield", RPCs: []RPC{
+					{Kind: "unary", Client: []string{"I"}, Handler: h0, Timeout: "1s"},
+					{Kind: "unary", Client: []string{"I"}, Handler: []string{"dec", "ret:ok"}},
+				}}
+				sc.Name = "reuse|after-an-abandoned-call|" + rpcName(sc.RPCs[0]) + " >> " + rpcName(sc.RPCs[1])
+				out = append(out, sc)
+			}
+		}
 		// two RPCs at once on one channel
 		add(tr, unary, unary)
 		add(tr, unary, RPC{Kind: "ss", Client: []string{"S0", "C", "R*"}, Handler: []string{"r", "s0", "s1", "ret:ok"}})
@@ -127,7 +150,7 @@ func c01Oracle(sc *Scenario, rec *Rec, s *mc.Sched) []mc.Violation {
 		success := rr.FinalErr == "nil" || (rpc.Kind != "unary" && rr.FinalErr == "EOF") ||
 			(rr.FinalErr == "" && rpc.Kind == "cs" && len(rr.RecvRes) == 1 && rr.RecvRes[0] == "nil")
 		if !success {
-			if sc.Cancel == "" {
+			if sc.Cancel == "" && !(rpc.Timeout != "" && statusCodeOf(rr.FinalErr) == "DeadlineExceeded") {
 				add("call-failed", "final result "+normFinal(rr.FinalErr)+" in a fault-free scenario")
 			}
 			continue
